@@ -233,6 +233,7 @@ def zeep_calls(program, b, app, w, proto, res, V, values=None):
             b.rec.script[mname] = ('raise', lambda fc=fc: fc('Client.Declared', 'declared fault'))
         else:
             b.rec.script[mname] = ('ret', h.natives(m, ret))
+        hdr = None
         try:
             root_decl = h.codec.s.global_element(b.tns, xsdcodec.in_message_name(m))
             if style == 'bare':
